@@ -196,6 +196,7 @@ def emit_tla(d, modname=None):
            "  flags |-> %s," % tseq(q(f) for f in d.flags),
            "  guards |-> %s," % tset(d.guards),
            "  sticky |-> %s," % tset(d.sticky),
+           "  counted |-> %s," % tset([e for e, ej in d.events.items() if ej.get("kind", "trivial") in ("nontrivial", "throwmove", "selfref")]),
            "  M |-> ["]
     ms = []
     for mn in d.order:
@@ -253,7 +254,11 @@ def emit_cpp(d, cfg, opts=None):
     # events
     for k, (en, ej) in enumerate(d.events.items()):
         base = ej.get("base", "")
-        if base:
+        if "size" in ej:
+            kind = {"trivial": 0, "nontrivial": 1, "throwmove": 2, "selfref": 3}[ej.get("kind", "trivial")]
+            b = "EvS<%d,%d,%d,%d>" % (k, ej["size"], ej.get("align", 4), kind)
+            L.append("struct %s : %s { %s() {} explicit %s(int x) : %s(x) {} };" % (en, b, en, en, b))
+        elif base:
             L.append("struct %s : %s { static constexpr int idx = %d; %s() { dyn = %d; } explicit %s(int x) : %s(x) { dyn = %d; } };"
                      % (en, base, k, en, k, en, base, k))
         else:
